@@ -613,11 +613,49 @@ def generator_statements(chk, rnd):
 
 
 # --------------------------------------------------------------------------------------------- entry points
+def kind_matrix(chk):
+    """KindMatrix.tla replayed on the real DSL: every ordered pair of kinds (primitive, temporal, compound) as operands of a
+    comparison and of an arithmetic expression, in where / select position."""
+    from forml.io import dsl
+    res = chk.tlc('KindMatrix', 'KindMatrix.cfg', workers=1, coverage=False)
+    recs = res.json_prints()
+    if len(recs) < 100:
+        raise tlc.MachineryError(f'KindMatrix.tla exported {len(recs)} pairs')
+
+    def kind(term):
+        args = [kind(a) for a in term['args']]
+        return {'boolean': dsl.Boolean, 'integer': dsl.Integer, 'float': dsl.Float, 'decimal': dsl.Decimal, 'string': dsl.String,
+                'date': dsl.Date, 'timestamp': dsl.Timestamp, 'array': dsl.Array, 'map': dsl.Map}[term['k']](*args)
+
+    ok = 0
+    for n, rec in enumerate(recs):
+        schema = dsl.Schema.from_fields(dsl.Field(kind(rec['a']), name='a'), dsl.Field(kind(rec['b']), name='b'))
+        table = dsl.Table(schema)
+        for what, build, want in (('comparison', lambda t: t.where(t.a == t.b), rec['cmp']),
+                                  ('ordering comparison', lambda t: t.select(t.a).where(t.a < t.b), rec['cmp']),
+                                  ('arithmetic', lambda t: t.select((t.a + t.b).alias('c')), rec['ari'])):
+            try:
+                build(table)
+                got = True
+            except dsl.GrammarError:
+                got = False
+            except Exception as exc:  # pylint: disable=broad-except
+                got = f'{type(exc).__name__}'
+            if got != want:
+                chk.fail(f'C07 {what} of operands of kinds {rec["a"]} and {rec["b"]}: constructible={got}, the grammar says {want}',
+                         {'kind': 'kindmatrix', 'a': rec['a'], 'b': rec['b'], 'what': what})
+            else:
+                ok += 1
+    chk.validated(ok)
+    chk.extra['kind_matrix'] = {'ordered_pairs': len(recs), 'conforming_constructions': ok}
+
+
 def main(chk):
     import logging
     logging.disable(logging.INFO)
     rnd = random.Random(chk.seed)
     procs = PROCS
+    kind_matrix(chk)
     if chk.quick:
         explore(chk, 'wide', 2, 2, procs, procs)
         explore(chk, 'core', 4, 4, procs, procs)
